@@ -89,9 +89,9 @@ def run(M, rec, tier, seed, k, n):
             W.small_valid_steps(M, rec, rng, 2, before_case=on_case, seed=seed)
             W.symbolic_param_steps(M, rec, rng, symvals, 30, before_case=on_case)
         else:
-            W.numpy_steps(M, rec, rng, 3200, draws=3, opts_prob=0.15, before_case=on_case)
-            W.symbolic_steps(M, rec, rng, symvals, 260, points=3, opts_prob=0.15, before_case=on_case)
-            W.closed_loop(M, rec, rng, 5, 300, before_case=on_case)
+            W.numpy_steps(M, rec, rng, 6000, draws=3, opts_prob=0.15, before_case=on_case)
+            W.symbolic_steps(M, rec, rng, symvals, 420, points=3, opts_prob=0.15, before_case=on_case)
+            W.closed_loop(M, rec, rng, 8, 400, before_case=on_case)
             W.small_valid_steps(M, rec, rng, 3, k, n, before_case=on_case, seed=seed)
             W.symbolic_param_steps(M, rec, rng, symvals, 150, before_case=on_case)
     finally:
